@@ -164,9 +164,48 @@ def runOps (salt : Nat) (isFile : Bool) : H → Nat → List String → List Str
     let (h', tok) := exec salt isFile h idx op
     runOps salt isFile h' (idx + 1) rest (tok :: acc)
 
+/-- `multi-<kind>`: several pipes in one case, each with its own state; an op touches only the pipe it names -/
+def runMulti (mk : Option (Pipe × Bool)) (salt : Nat) (ops : List String) : String :=
+  let fresh (p : Pipe) : H := { sys := { p := p, rt := .idle, wt := .idle }, rjob := none, wjob := false, rdone := none, wdone := none }
+  let step (st : List (Nat × H × Bool) × Nat × List String) (id : Nat) (op : String) : List (Nat × H × Bool) × Nat × List String :=
+    let (pipes, idx, acc) := st
+    match pipes.find? (·.1 == id) with
+    | none => (pipes, idx + 1, "nopipe" :: acc)
+    | some (_, h, isFile) =>
+      let (h', tok) := exec (salt + 17 * id) isFile h idx op
+      (pipes.map (fun e => if e.1 == id then (id, h', isFile) else e), idx + 1, tok :: acc)
+  let st := ops.foldl (fun (st : List (Nat × H × Bool) × Nat × List String) t =>
+    match t.splitOn "." with
+    | [ids, op] =>
+      match ids.toNat? with
+      | none => (st.1, st.2.1 + 1, "badop" :: st.2.2)
+      | some id =>
+        if op == "n" then
+          match mk with
+          | some (p, isFile) => (st.1 ++ [(id, fresh p, isFile)], st.2.1 + 1, "new" :: st.2.2)
+          | none => (st.1, st.2.1 + 1, "panic" :: st.2.2)
+        else step st id op
+    | _ => (st.1, st.2.1 + 1, "badop" :: st.2.2)) ([], 0, [])
+  let ids := st.1.map (·.1)
+  let st := ids.foldl (fun st id => step (step st id "rc:0") id "wc:0") st
+  let leak := st.1.any fun (_, h, _) => h.rjob.isSome || h.wjob
+  " ".intercalate ((if leak then "leak" :: st.2.2 else st.2.2).reverse)
+
 def handle (line : String) : String :=
   match (line.splitOn " ").filter (· ≠ "") with
   | kind :: reqs :: salts :: ops =>
+    if kind.startsWith "multi-" then
+      match reqs.toNat?, salts.toNat? with
+      | some req, some salt =>
+        let mk : Option (Pipe × Bool) :=
+          match (kind.drop 6).toString with
+          | "mem-raw" => if req = 0 then none else some (Pipe.init .mem req, false)
+          | "file-raw" => if req = 0 then none else some (Pipe.init .file req, true)
+          | "mem-api" => some (newSize req, false)
+          | _ => none
+        runMulti mk salt ops
+      | _, _ => "badcase"
+    else
     match reqs.toNat?, salts.toNat? with
     | some req, some salt =>
       let mk : Option (Pipe × Bool) :=
